@@ -391,6 +391,27 @@ fn run(tier: Tier) -> Sink {
             }
         }
     }
+    // every binade: the same three constructions scaled by every power of two for which the data
+    // and their squares stay normal numbers of the type (f64: 2^-500..2^505, f32: 2^-55..2^60).
+    // Intermediate quantities of the effective dof (fourth powers of the data) leave the type's
+    // range — overflow, gradual underflow, total underflow — in bands a few binades wide, which
+    // only a sweep over all exponents is sure to meet
+    for (f32_, lo, hi) in [(false, -500, 505), (true, -55, 60)] {
+        for e in lo..=hi {
+            let k = 2f64.powi(e);
+            for (na, nb, r) in [(3, 2, 1.0), (5, 4, 0.0625), (12, 7, 16.0)] {
+                let a: Vec<f64> = two_point(na, 1.0, 1.0).iter().map(|x| x * k).collect();
+                let b: Vec<f64> = two_point(nb, -0.5, r).iter().map(|x| x * k).collect();
+                // (the sums of squares must stay finite, the smallest square normal)
+                let (mx, mn) = a.iter().chain(&b).filter(|x| **x != 0.0).fold((0.0f64, f64::MAX), |(mx, mn), x| (mx.max(x.abs()), mn.min(x.abs())));
+                let (tmax, tmin) = if f32_ { (f32::MAX as f64, f32::MIN_POSITIVE as f64) } else { (f64::MAX, f64::MIN_POSITIVE) };
+                if mx * mx >= tmax / 64.0 / (na + nb) as f64 || mn * mn <= tmin * 64.0 {
+                    continue;
+                }
+                jobs.push(Job::Unp(a, b, f32_, false));
+            }
+        }
+    }
     // a long tight sample against a short spread one: many observations in total but a small
     // effective dof (the distribution must follow the dof, not the sample sizes)
     for (na, nb, r) in [(100_000usize, 5usize, 400.0), (4, 120_000, 0.001), (60_000, 60_000, 1.0)] {
